@@ -240,4 +240,17 @@ PROPS = {
             "true ECONNREFUSED attempts cannot be timestamped by the gate and are not part of the timing oracle",
         ],
     },
+    "C01": {
+        "level": "exploration",
+        "jobs": {
+            "quick": [job("e2e", "e2e", "verif", "c01", 8, timeout=600)],
+            "thorough": [job("e2e", "e2e", "verif", "c01", 16, timeout=3000)],
+        },
+        "required_targets": {"any": ["conversations_completed", "udp_replies_checked", "half_close_then_opposite_direction", "close_refuse_abort_paths"]},
+        "assumptions": COMMON_ASSUMPTIONS + E2E_ASSUMPTIONS + [
+            "absolute oracle with position-addressed payloads instead of a second run over a direct connection: each side must receive exactly the other side's stream, a direction's end is compared as ended / not ended",
+            "for refusing / aborting targets only 'the local connection is closed and nothing the target did send is lost' is demanded (a tunnel turns a refused connect into an accepted-then-closed local connection)",
+            "UDP loss is not a violation by itself; only cross-delivery, wrong source address, duplication, modification, a malformed SOCKS5 header, or nothing at all arriving",
+        ],
+    },
 }
